@@ -169,6 +169,23 @@ theorem c08_cache_some_step_ok (x : Ext K) (o : XOps K) (isNaN : K → Bool)
     cases hv
   simp [hs, hn]
 
+/-! non-vacuity: a routine that answers with a "NaN" (here the integer −1 stands for the one value that
+is neither finite nor comparable) for a finite 1×1 matrix: the old step panics, the repaired step
+rejects, and `computeCache` is absent -/
+section example_
+def toyExt : Ext Int := { svd := fun n m _ =>
+  { r := 1, U := Mat.ofFn fun _ _ => 1, sigma := #v[(-1 : Int)], Vt := Mat.ofFn fun _ _ => 1 } }
+def toyOps : XOps Int := { isFinite := fun v => v != -1, abs := fun v => v.natAbs, sqrt := id }
+def toyA : Mat 1 1 Int := Mat.ofFn fun _ _ => 5
+
+example : svdStepOld toyExt (fun v => v == -1) toyA = .panic :=
+  (c08_old_panics_iff toyExt _ toyA).mpr (by simp [toyExt])
+example : svdStepNew toyExt toyOps (fun v => v == -1) toyA ≠ .panic :=
+  c08_new_never_panics toyExt toyOps _ (by intro v h; simpa [toyOps] using h) toyA
+example : computeCache toyExt toyOps (Mat.ofFn fun _ _ => 1 : Mat 1 1 Int) 0 toyA = none :=
+  c08_nonfinite_sigma_absent toyExt toyOps _ 0 toyA (by simp [toyExt, toyOps])
+end example_
+
 end Varpro
 
 namespace Varpro.LM
